@@ -435,6 +435,76 @@ Proof.
   intros L s. unfold valid_hash_string, hex_ok. destruct (hex_decode s) as [b|]; [|split; reflexivity].
   destruct (Nat.eqb (length b) L); split; intro; try reflexivity; discriminate.
 Qed.
+(* case-insensitive comparison and decoding *)
+Lemma hex_val_lower : forall c c', ascii_lower c = ascii_lower c' -> hex_val c = hex_val c'.
+Proof.
+  intros c c'. unfold ascii_lower, hex_val.
+  repeat match goal with
+         | |- context [?a <=? ?b] => destruct (N.leb_spec a b)
+         end; cbn [andb]; intro E; try reflexivity; try (f_equal; lia); try lia.
+Qed.
+Lemma str_eqb_ci_decode : forall a b, str_eqb_ci a b = true -> hex_decode a = hex_decode b.
+Proof.
+  induction a as [| x | x y r IH] using list_pair_ind; intros b E.
+  - destruct b; [reflexivity|discriminate].
+  - destruct b as [|x' [|? ?]]; [discriminate|reflexivity|].
+    cbn in E. apply andb_true_iff in E. destruct E as [_ E]. discriminate.
+  - destruct b as [|x' [|y' r']]; [discriminate| |].
+    + cbn in E. apply andb_true_iff in E. destruct E as [_ E]. discriminate.
+    + cbn in E. apply andb_true_iff in E. destruct E as [E1 E].
+      apply andb_true_iff in E. destruct E as [E2 E3].
+      apply N.eqb_eq in E1. apply N.eqb_eq in E2.
+      cbn [hex_decode]. rewrite (hex_val_lower _ _ E1), (hex_val_lower _ _ E2), (IH r' E3). reflexivity.
+Qed.
+Lemma some_inj {A} (a b : A) : Some a = Some b -> a = b.
+Proof. intro E. inversion E. reflexivity. Qed.
+Lemma hex_val_digit_inv : forall d h, hex_val (hex_digit d) = Some h -> h = d.
+Proof.
+  intros d h. unfold hex_digit, hex_val. destruct (N.ltb_spec d 10).
+  - repeat match goal with |- context [?a <=? ?b] => destruct (N.leb_spec a b) end; cbn [andb];
+      intro E; try discriminate; apply some_inj in E; lia.
+  - repeat match goal with |- context [?a <=? ?b] => destruct (N.leb_spec a b) end; cbn [andb];
+      intro E; try discriminate; apply some_inj in E; lia.
+Qed.
+Lemma hex_decode_encode_inv : forall f r, hex_decode (hex_encode f) = Some r -> f = r.
+Proof.
+  induction f as [|x f IH]; intros r E.
+  - cbn in E. inversion E. reflexivity.
+  - cbn [hex_encode hex_decode] in E.
+    destruct (hex_val (hex_digit (x / 16))) as [h|] eqn:E1; [|discriminate].
+    destruct (hex_val (hex_digit (x mod 16))) as [l|] eqn:E2; [|discriminate].
+    destruct (hex_decode (hex_encode f)) as [bs|] eqn:E3; [|discriminate].
+    apply some_inj in E. apply hex_val_digit_inv in E1. apply hex_val_digit_inv in E2.
+    rewrite <- E, (IH bs eq_refl). f_equal. rewrite E1, E2. apply N.div_mod. lia.
+Qed.
+Lemma hex_val_range : forall c h, hex_val c = Some h -> h < 16 /\ ascii_lower c = ascii_lower (hex_digit h).
+Proof.
+  intros c h. unfold hex_val.
+  repeat match goal with |- context [?a <=? ?b] => destruct (N.leb_spec a b) end; cbn [andb];
+    intro E; try discriminate; apply some_inj in E; (split; [lia|]); unfold hex_digit, ascii_lower;
+    destruct (N.ltb_spec h 10);
+    repeat match goal with |- context [?a <=? ?b] => destruct (N.leb_spec a b) end; cbn [andb]; lia.
+Qed.
+Lemma hex_decode_ci : forall s r, hex_decode s = Some r -> str_eqb_ci s (hex_encode r) = true.
+Proof.
+  induction s as [| x | x y t IH] using list_pair_ind; intros r E.
+  - cbn in E. inversion E. reflexivity.
+  - discriminate.
+  - cbn [hex_decode] in E.
+    destruct (hex_val x) as [h|] eqn:E1; [|discriminate].
+    destruct (hex_val y) as [l|] eqn:E2; [|discriminate].
+    destruct (hex_decode t) as [bs|] eqn:E3; [|discriminate].
+    apply some_inj in E. rewrite <- E. apply hex_val_range in E1. apply hex_val_range in E2.
+    destruct E1 as [H1 L1]. destruct E2 as [H2 L2].
+    cbn [hex_encode].
+    assert (Q : (16 * h + l) / 16 = h).
+    { symmetry. apply (N.div_unique (16 * h + l) 16 h l); [exact H2|reflexivity]. }
+    assert (R : (16 * h + l) mod 16 = l).
+    { symmetry. apply (N.mod_unique (16 * h + l) 16 h l); [exact H2|reflexivity]. }
+    rewrite Q, R. unfold str_eqb_ci. cbn [list_eqb].
+    rewrite L1, L2, !N.eqb_refl. cbn [andb]. apply (IH bs eq_refl).
+Qed.
+
 (* the two parsers of helpers/crypto.rs accept exactly the same strings *)
 Lemma string_to_byte_slice_same : forall L s,
   is_ok (string_to_byte_slice L s) = is_ok (valid_hash_string L s).
@@ -516,7 +586,7 @@ Section Strings.
 
   (* Ok b: the proof decodes, and b compares the stored root string with the hex of the fold *)
   Theorem has_member_inv : forall root m p b, has_member L H root m p = Ok b ->
-    exists bs, decodes p bs /\ b = str_eqb root (hex_encode (fold_proof H m bs)).
+    exists bs, decodes p bs /\ b = str_eqb_ci root (hex_encode (fold_proof H m bs)).
   Proof.
     intros root m p b E. unfold has_member in E.
     destruct (fold_proof_str L H (H m) p) as [f|] eqn:F; [|discriminate].
@@ -529,19 +599,22 @@ Section Strings.
 
   Hypothesis H_len : forall x, length (H x) = L.
 
-  (* string-level soundness: the contract said Ok true against the hex of a tree root *)
-  Theorem has_member_sound : forall ms m p, ms <> [] ->
-    has_member L H (hex_encode (root H ms)) m p = Ok true ->
+  (* string-level soundness: the contract said Ok true, and the stored root string is any
+     spelling (upper, lower, mixed case) of the tree root's bytes *)
+  Theorem has_member_sound : forall ms m p rs, ms <> [] ->
+    hex_decode rs = Some (root H ms) ->
+    has_member L H rs m p = Ok true ->
     exists bs, decodes p bs /\
      (In m ms \/
       (exists x y, find_collision H (calls H ms m bs) = Some (x, y) /\ x <> y /\ H x = H y) \/
       length m = (2 * L)%nat \/
       (exists m', In m' ms /\ length m' = (2 * L)%nat)).
   Proof.
-    intros ms m p Hne E. apply has_member_inv in E. destruct E as (bs & D & Eb).
-    exists bs. split; [exact D|]. symmetry in Eb. apply str_eqb_eq in Eb. apply hex_encode_inj in Eb.
+    intros ms m p rs Hne Hr E. apply has_member_inv in E. destruct E as (bs & D & Eb).
+    exists bs. split; [exact D|]. symmetry in Eb. apply str_eqb_ci_decode in Eb.
+    rewrite Hr in Eb. symmetry in Eb. apply hex_decode_encode_inv in Eb.
     apply (sound L H H_len ms m bs Hne (decodes_len p bs D)).
-    unfold verify. apply bytes_eqb_eq. symmetry. exact Eb.
+    unfold verify. apply bytes_eqb_eq. exact Eb.
   Qed.
 
   Hypothesis H_byte : forall x, Forall (fun b => b < 256) (H x).
@@ -569,11 +642,13 @@ Section Strings.
     destruct Hx as (m & E & _). rewrite <- E. apply HP.
   Qed.
 
-  (* string-level completeness: the hex of every member's rs_merkle proof is accepted *)
-  Theorem has_member_complete : forall (ms : list str) i (m : str), nth_error ms i = Some m ->
-    has_member L H (hex_encode (root H ms)) m (map hex_encode (proof_at H ms i)) = Ok true.
+  (* string-level completeness: the hex of every member's rs_merkle proof is accepted,
+     whatever the spelling of the stored root *)
+  Theorem has_member_complete : forall (ms : list str) i (m : str) rs, nth_error ms i = Some m ->
+    hex_decode rs = Some (root H ms) ->
+    has_member L H rs m (map hex_encode (proof_at H ms i)) = Ok true.
   Proof.
-    intros ms i m Hi. unfold has_member.
+    intros ms i m rs Hi Hr. unfold has_member.
     assert (D : decodes (map hex_encode (proof_at H ms i)) (proof_at H ms i)).
     { unfold proof_at.
       pose proof (proof_layers_all (fun x => length x = L) H_len (length ms) _ i (leaves_all _ H_len ms)) as F1.
@@ -584,7 +659,7 @@ Section Strings.
       - apply IH; [exact (Forall_inv_tail F1)|exact (Forall_inv_tail F2)]. }
     rewrite (fold_proof_str_decoded _ _ (H m) D). cbn.
     pose proof (complete_at H ms i m Hi) as C. unfold fold_proof in C. rewrite C.
-    f_equal. apply str_eqb_eq. reflexivity.
+    f_equal. apply hex_decode_ci. exact Hr.
   Qed.
 End Strings.
 
@@ -794,16 +869,16 @@ End Useless.
 Lemma wl_has_member_complete : forall (H : list N -> list N),
   (forall x, length (H x) = 32%nat) -> (forall x, Forall (fun b => b < 256) (H x)) ->
   forall (s : wl_state) (ms : list (list N)) (i : nat) (m : list N),
-  wl_root s = hex_encode (root H ms) -> nth_error ms i = Some m ->
+  hex_decode (wl_root s) = Some (root H ms) -> nth_error ms i = Some m ->
   wl_has_member H s m (map hex_encode (proof_at H ms i)) = Ok true.
 Proof.
-  intros H Hl Hb s ms i m Er Hi. unfold wl_has_member. rewrite Er.
-  exact (has_member_complete 32 H Hl Hb ms i m Hi).
+  intros H Hl Hb s ms i m Er Hi. unfold wl_has_member.
+  exact (has_member_complete 32 H Hl Hb ms i m (wl_root s) Hi Er).
 Qed.
 
 Lemma wl_has_member_sound : forall (H : list N -> list N), (forall x, length (H x) = 32%nat) ->
   forall (s : wl_state) (ms : list (list N)) (m : list N) (p : list (list N)),
-  ms <> [] -> wl_root s = hex_encode (root H ms) ->
+  ms <> [] -> hex_decode (wl_root s) = Some (root H ms) ->
   wl_has_member H s m p = Ok true ->
   exists bs, Forall2 (fun h b => hex_decode h = Some b /\ length b = 32%nat) p bs /\
    (In m ms \/
@@ -811,8 +886,8 @@ Lemma wl_has_member_sound : forall (H : list N -> list N), (forall x, length (H 
     length m = 64%nat \/
     (exists m', In m' ms /\ length m' = 64%nat)).
 Proof.
-  intros H Hl s ms m p Hne Er E. unfold wl_has_member in E. rewrite Er in E.
-  exact (has_member_sound 32 H Hl ms m p Hne E).
+  intros H Hl s ms m p Hne Er E. unfold wl_has_member in E.
+  exact (has_member_sound 32 H Hl ms m p (wl_root s) Hne Er E).
 Qed.
 
 Lemma wl_malformed_is_error : forall (H : list N -> list N) (s : wl_state) m p h,
@@ -821,9 +896,9 @@ Proof. intros H s m p h. exact (malformed_is_error 32 H (wl_root s) m p h). Qed.
 
 Lemma has_member_complete_16 : forall (H : list N -> list N),
   (forall x, length (H x) = 16%nat) -> (forall x, Forall (fun b => b < 256) (H x)) ->
-  forall (ms : list (list N)) (i : nat) (m : list N),
-  nth_error ms i = Some m ->
-  has_member 16 H (hex_encode (root H ms)) m (map hex_encode (proof_at H ms i)) = Ok true.
+  forall (ms : list (list N)) (i : nat) (m : list N) (rs : list N),
+  nth_error ms i = Some m -> hex_decode rs = Some (root H ms) ->
+  has_member 16 H rs m (map hex_encode (proof_at H ms i)) = Ok true.
 Proof. intros H Hl Hb. exact (has_member_complete 16 H Hl Hb). Qed.
 Lemma sound_32 : forall (H : list N -> list N), (forall x, length (H x) = 32%nat) ->
   forall (ms : list (list N)) (m : list N) (p : list (list N)),
@@ -844,9 +919,9 @@ Lemma sound_16 : forall (H : list N -> list N), (forall x, length (H x) = 16%nat
   (exists m', In m' ms /\ length m' = 32%nat).
 Proof. intros H Hl. exact (sound 16 H Hl). Qed.
 Lemma has_member_sound_16 : forall (H : list N -> list N), (forall x, length (H x) = 16%nat) ->
-  forall (ms : list (list N)) (m : list N) (p : list (list N)),
-  ms <> [] ->
-  has_member 16 H (hex_encode (root H ms)) m p = Ok true ->
+  forall (ms : list (list N)) (m : list N) (p : list (list N)) (rs : list N),
+  ms <> [] -> hex_decode rs = Some (root H ms) ->
+  has_member 16 H rs m p = Ok true ->
   exists bs, Forall2 (fun h b => hex_decode h = Some b /\ length b = 16%nat) p bs /\
    (In m ms \/
     (exists x y, find_collision H (calls H ms m bs) = Some (x, y) /\ x <> y /\ H x = H y) \/
@@ -857,35 +932,7 @@ Lemma malformed_is_error_16 : forall (H : list N -> list N) root m p h,
   In h p -> hex_ok 16 h = false -> has_member 16 H root m p = Err.
 Proof. intros H. exact (malformed_is_error 16 H). Qed.
 
-(* ---------- a root string containing an upper-case hex letter can never match ---------- *)
-Lemma hex_digit_not_upper : forall d, hex_digit d < 65 \/ 70 < hex_digit d.
-Proof.
-  intro d. unfold hex_digit. destruct (d <? 10) eqn:E.
-  - apply N.ltb_lt in E. left. lia.
-  - apply N.ltb_ge in E. right. lia.
-Qed.
-Lemma hex_encode_not_upper : forall b c, In c (hex_encode b) -> c < 65 \/ 70 < c.
-Proof.
-  induction b as [|x b IH]; intros c Hc; [contradiction|].
-  cbn [hex_encode] in Hc. destruct Hc as [Hc|[Hc|Hc]].
-  - rewrite <- Hc. apply hex_digit_not_upper.
-  - rewrite <- Hc. apply hex_digit_not_upper.
-  - apply IH. exact Hc.
-Qed.
-Theorem uppercase_root_never_matches : forall L H root m p c,
-  In c root -> 65 <= c <= 70 -> has_member L H root m p <> Ok true.
-Proof.
-  intros L H root m p c Hin Hc E. apply has_member_inv in E. destruct E as (bs & _ & Eb).
-  symmetry in Eb. apply str_eqb_eq in Eb. rewrite Eb in Hin.
-  apply hex_encode_not_upper in Hin. lia.
-Qed.
-(* instantiate accepts such a root (64 times 'A'), so "every listed entry is accepted
-   against the stored root" fails for roots supplied in upper case *)
-Theorem complete_any_accepted_root_refuted :
-  exists root : list N,
-    verify_merkle_root 32 root = Ok tt /\
-    forall (H : list N -> list N) m p, has_member 32 H root m p <> Ok true.
-Proof.
-  exists (repeat 65 64). split; [vm_compute; reflexivity|].
-  intros H m p. apply uppercase_root_never_matches with 65; [left; reflexivity|lia].
-Qed.
+(* every spelling of the root that instantiate accepts denotes the same bytes, and the
+   lower-case rendering is one of them *)
+Lemma hex_encode_decodes : forall b, Forall (fun x => x < 256) b -> hex_decode (hex_encode b) = Some b.
+Proof. exact hex_decode_encode. Qed.
